@@ -7,3 +7,7 @@ def run(ctx, prop, mod, src):
     if hasattr(mod, "thorough"):
         mod.thorough(ctx, src)
     mutants.run(ctx, prop, src)
+    if prop in ("C12", "C13"):
+        from . import reinfer, engine
+        facts = engine.load_facts("default", src_root=src)
+        reinfer.run(ctx, facts)
